@@ -7,6 +7,7 @@ solo_a and solo_b call nothing and are in nobody's dependency closure.
 import sys
 
 import twosigma.memento as m
+from twosigma.memento.exception import NonMemoizedException
 
 
 @m.memento_function(cluster="vfc", version="1")
@@ -57,9 +58,35 @@ def top2(x):
     return "top2(%s)" % mid(x)
 
 
+class Transient(NonMemoizedException):
+    pass
+
+
+_runs = {}      # x -> number of body executions of flaky(x) so far (reset by the harness per execution)
+_inside = set()  # x currently inside the body of flaky(x)
+
+
+@m.memento_function(cluster="vfc", version="1")
+def flaky(x):
+    """First execution fails with a not-to-be-memoized exception, later ones succeed. Two executions of the body for
+    the same argument must never overlap (the per-call mutex serialises them)."""
+    sys.audit("vf.body", "flaky", x)
+    if x in _inside:
+        sys.audit("vf.body", "OVERLAP", x)
+    _inside.add(x)
+    try:
+        _runs[x] = _runs.get(x, 0) + 1
+        n = _runs[x]
+        if n == 1:
+            raise Transient("first attempt of flaky(%s) fails" % x)
+        return "flaky-%s" % x
+    finally:
+        _inside.discard(x)
+
+
 # the reference: what an un-memoized program returns, and the call tree below each call
-CALLS = {"g": (), "h": (), "solo_a": (), "solo_b": (), "leaf": (), "mid": ("leaf",), "top1": ("mid",), "top2": ("mid",)}
-_FMT = {"g": "val-%s", "h": "other-%s", "solo_a": "a-%s", "solo_b": "b-%s", "leaf": "leaf-%s", "mid": "mid(%s)",
+CALLS = {"flaky": (), "g": (), "h": (), "solo_a": (), "solo_b": (), "leaf": (), "mid": ("leaf",), "top1": ("mid",), "top2": ("mid",)}
+_FMT = {"flaky": "flaky-%s", "g": "val-%s", "h": "other-%s", "solo_a": "a-%s", "solo_b": "b-%s", "leaf": "leaf-%s", "mid": "mid(%s)",
         "top1": "top1(%s)", "top2": "top2(%s)"}
 
 
